@@ -2,11 +2,11 @@
 """tools/save_seed.py <Cnn> <N> <caught-by> <needs...>  -- keep a confirmed seeded change under /verif/seeded/<Cnn>-<N>/"""
 import json, os, shutil, subprocess, sys
 p, n, caught = sys.argv[1], sys.argv[2], sys.argv[3]; needs = " ".join(sys.argv[4:])
-src = "/tmp/seed_%s/out" % p; dst = "/verif/seeded/%s-%s" % (p, n); os.makedirs(dst, exist_ok=True)
+src = os.environ.get("SEED_WT", "/tmp/seed_%s" % p) + "/out"; n_out = os.environ.get("SEED_AS", n); dst = "/verif/seeded/%s-%s" % (p, n_out); os.makedirs(dst, exist_ok=True)
 shutil.copy(os.path.join(src, "mut%s.diff" % n), os.path.join(dst, "patch.diff")); shutil.copy(os.path.join(src, "demo%s.py" % n), os.path.join(dst, "demo.py"))
 files = sorted({l[6:].strip() for l in open(os.path.join(dst, "patch.diff")) if l.startswith("+++ b/")})
 meta = {"property": p, "files": files, "needs_to_manifest": needs, "origin": "independent sub-agent given only the property text and a scratch worktree",
         "confirmed": "tools/seed_eval.sh %s %s: baseline tests unchanged (342 passed, same 2 failures) with the patch; demo exits 0 without and 1 with the patch" % (p, n),
-        "our_checks": caught, "run": "git -C /repo apply seeded/%s-%s/patch.diff && ./check %s ; git -C /repo checkout -- ." % (p, n, p)}
+        "our_checks": caught, "run": "git -C /repo apply seeded/%s-%s/patch.diff && ./check %s ; git -C /repo checkout -- ." % (p, n_out, p)}
 json.dump(meta, open(os.path.join(dst, "meta.json"), "w"), indent=1)
 print(dst)
